@@ -15,7 +15,7 @@ dvars == <<S, k, lastRefused>>
 
 Str == <<"s:a", "~", "s:", "s:b", "s:c">>
 SrcEv(id) == [e |-> "SourceDef", id |-> id, s |-> Str, maxlen |-> 3, w |-> <<0, 0>>]
-SigEv(id, src, st) == [e |-> "SignalDef", id |-> id, src |-> src, st |-> st, dt |-> "u8", bits |-> 8, rate |-> 1000, spd |-> 0, sdf |-> 0,
+SigEv(id, src, st) == [e |-> "SignalDef", id |-> id, src |-> src, st |-> st, dt |-> "u8", fq |-> 0, bits |-> 8, rate |-> 1000, spd |-> 0, sdf |-> 0,
                        eps |-> 0, sumdf |-> 0, adf |-> 0, udf |-> 0, name |-> "~", units |-> "s:V", maxlen |-> 3, w |-> <<0, 0>>]
 DataEv(kind, sig, q) == [e |-> kind, sig |-> sig, id |-> 0, n |-> 3, q |-> q, ts |-> 0, tok |-> "t", t |-> 0, en |-> 1, gen |-> "rnd", gp |-> 0, w |-> <<0, 0>>]
 
